@@ -146,6 +146,7 @@ Step(a, s) ==
     [] a.k = "setter" ->
          LET v == Eval(a.e, s.f) IN
          IF ~v.ok THEN [s EXCEPT !.err = TRUE]
+         ELSE IF a.fn = "SetRisky" THEN (IF v.v = 13 THEN [s EXCEPT !.err = TRUE] ELSE [s EXCEPT !.f["F.Y"] = v.v])   \* panics on 13
          ELSE IF a.fn = "Mark" THEN [s EXCEPT !.f["F.Once"] = s.f["F.Once"] * 10 + v.v]   \* records order and number of runs
          ELSE IF a.fn = "Stamp" THEN [s EXCEPT !.f["F.St"] = s.f["F.St"] * 10 + v.v]      \* ... and the epoch of each instant
          ELSE [s EXCEPT !.f[SetterKey(a.fn)] = v.v]
